@@ -253,7 +253,7 @@ func (g G) planMix(prop string, o *mixOpts) *Plan {
 		case 17:
 			p.Steps = append(p.Steps, Step{K: "mutate", Mut: "rotateMetaKey"})
 		case 18:
-			if g.chance(lab+".moveapp", 15) {
+			if g.chance(lab+".moveapp", 30) {
 				p.Steps = append(p.Steps, Step{K: "mutate", Mut: "moveApp", A: g.intn(lab+".sp", 4), B: g.intn(lab+".sp2", 4)})
 			} else {
 				p.Steps = append(p.Steps, Step{K: "mutate", Mut: "reregister", A: g.intn(lab+".sp", 4), B: g.intn(lab+".how", 7)})
